@@ -230,6 +230,9 @@ where
                     None => fail!("count", "read_nth_shape_as({}) is None but {} shapes were written", i, n),
                 }
             }
+            // the Iterator adaptors (nth / skip / step_by / count / last) select the same items as a plain loop
+            adaptor_routes("mem/shx", || open_mem(&shp, Some(&shx[..])), &expect, same_after_read).map_err(|(k, m)| Fail::new(&k, m))?;
+            adaptor_routes("mem/noshx", || open_mem(&shp, None), &expect, same_after_read).map_err(|(k, m)| Fail::new(&k, m))?;
             // a sequential read on the reader that just served random accesses
             let got = collect_generic("mem/shx/read_nth then iter_shapes", r.iter_shapes(), cap)?;
             cmp_seq("mem/shx/read_nth then iter_shapes", &expect, &got)?;
@@ -238,11 +241,8 @@ where
 
     if c.disk {
         ctx.class("disk-route");
-        let dir = scratch_dir();
-        let p = dir.join("c01.shp");
-        let px = dir.join("c01.shx");
-        let _ = std::fs::remove_file(&p);
-        let _ = std::fs::remove_file(&px);
+        let p = scratch_shp("c01", c.geoms.len() + c.mid_fins as usize);
+        let px = p.with_extension("shx");
         {
             let mut w = match ShapeWriter::from_path(&p) {
                 Ok(w) => w,
